@@ -232,9 +232,23 @@ class FD:
     def _super_proxy(self, cls, obj):
         """super() inside a method of pedal class `cls`: methods are looked up in cls's pedal base classes; a base class
         outside pedal (io.StringIO, Exception, ...) has an __init__ that is taken to do nothing a model needs."""
-        ci = self.sym.classes.get((getattr(cls, '_module', None).name if getattr(cls, '_module', None) else None,
-                                   getattr(cls, '_qualname', cls.name)))
-        bases = self.sym.mro(ci)[1:] if ci is not None else []
+        def info(c):
+            return self.sym.classes.get((getattr(c, '_module', None).name if getattr(c, '_module', None) else None,
+                                         getattr(c, '_qualname', c.name)))
+        ci = info(cls)
+        # cooperative super(): continue in the MRO of the *instance's* class after `cls` (a mixin's super() reaches
+        # the next class of the concrete type, not the mixin's own base)
+        inst_cls = obj.attrs.get('__classdef__') if isinstance(obj, Obj) else None
+        ici = info(inst_cls) if inst_cls is not None else None
+        bases = []
+        if ici is not None:
+            chain = self.sym.mro(ici)
+            for i, k in enumerate(chain):
+                if getattr(k, 'node', None) is cls:
+                    bases = chain[i + 1:]
+                    break
+        if not bases and ci is not None:
+            bases = self.sym.mro(ci)[1:]
         external = ci is None or any(not hasattr(b, 'node') for b in getattr(ci, 'bases', [])) or not bases
         proxy = Obj('super(%s)' % cls.name)
 
